@@ -664,3 +664,339 @@ Example C20_example_step_then_eq :
   firstn 2 (fst (step false C20_sc0 (OEq 0 1) x1)) = [1; 1]%N /\
   firstn 2 (fst (step false C20_sc0 (OEq 1 0) x1)) = [1; 1]%N.
 Proof. split; vm_compute; reflexivity. Qed.
+
+(* ========================================================================== *)
+(* APPENDED SECTION (streaming access object) — Model/Stream.v, Proofs/StreamSpec.v
+   The visitor loop of src/serialization.rs / src/set/serialization.rs against an access object that answers
+   each poll with an entry, the end, or an ERROR, and whose polls are counted (a streaming format consumes its
+   end marker: polling again after None / Err is not covered by serde's contract).  Stream.decode = the loop
+   under finally_drop (a panic unwinds through the local container), then on Err one ordinary drop of the local
+   container (drop_map) after the loop.
+   * the access object is polled exactly (number of leading entries + 1) times and never after it reported the
+     end or failed: C20_pull_*, C20_visit_stream_eq, C20_visit_stream_polls;
+   * safety for EVERY environment (any ==, Clone, Drop, panics anywhere; any stream):
+     C20_keeps_inserts, C20_keeps_visit_stream, C20_visit_stream_spec,
+     C20_decode_noUB (decode never reaches UB), C20_decode_safe (Ok (ROk, _): well-formed container of the same
+     capacity; Ok (RErr, _) or Panic: the array is the same array, no slot outside it was touched),
+     C20_keeps_decode_ok (a stream that does not fail returns ROk with a well-formed container),
+     C20_decode_err_quiet (a stream that fails: Err, every slot of the prefix emptied, provided no destructor
+     panics);
+   * lawful environments: C20_inserts_lawful(_log), C20_decode_ok_lawful, C20_decode_err_lawful (list machine and
+     the exact destructor log);
+   * NOT claimed, because false of the model (and of the crate: Drop for Map does not reset len): WF or len = 0
+     of what [self] holds after Err / after a panic -- it is the dropped husk of the local container (live
+     prefix emptied, len unchanged): C20_keeps_decode_false_err, C20_keeps_decode_false_panic,
+     C20_example_decode_err (len = 1).  The true statement is elems = [] / every prefix slot = Some None.
+   * a destructor that panics during the drop on the Err path: panic, the remaining entries are leaked, nothing
+     is dropped twice: C20_example_decode_drop_panic, C20_example_decode_drop_panic_leak. *)
+(* ========================================================================== *)
+Require Import Model.Stream.
+Require Import Proofs.Lawful2 Proofs.Lawful3 Proofs.Bulk Proofs.StreamSpec.
+
+Theorem C20_pull_polls :
+  forall (K V : Type) (s : @stream K V), polls (snd (pull s)) = S (polls s).
+Proof. exact (@pull_polls). Qed.
+Print Assumptions C20_pull_polls.
+
+Theorem C20_pull_late_fresh :
+  forall (K V : Type) (s : @stream K V), finished s = false -> late (snd (pull s)) = late s.
+Proof. exact (@pull_late_fresh). Qed.
+Print Assumptions C20_pull_late_fresh.
+
+Theorem C20_pull_late_after :
+  forall (K V : Type) (s : @stream K V),
+    finished s = true -> late (snd (pull s)) = S (late s) /\ fst (pull s) = SEnd.
+Proof. exact (@pull_late_after). Qed.
+Print Assumptions C20_pull_late_after.
+
+Theorem C20_pull_item :
+  forall (K V : Type) (s : @stream K V) (k : K) (v : V),
+    fst (pull s) = SItem k v ->
+    finished s = false /\ finished (snd (pull s)) = false /\
+    exists rest : list (@sans K V), todo s = SItem k v :: rest /\ todo (snd (pull s)) = rest.
+Proof. exact (@pull_item). Qed.
+Print Assumptions C20_pull_item.
+
+Theorem C20_pull_stop :
+  forall (K V : Type) (s : @stream K V),
+    finished s = false -> (forall (k : K) (v : V), fst (pull s) <> SItem k v) -> finished (snd (pull s)) = true.
+Proof. exact (@pull_stop). Qed.
+Print Assumptions C20_pull_stop.
+
+(* the equation is pointwise (at every world): M A is a function type and no extensionality axiom is used *)
+Theorem C20_visit_stream_eq :
+  forall (K V Q T : Type) (E : env K V Q T) (debug : bool) (fuel : nat) (s : @stream K V) (w : world K V T),
+    finished s = false ->
+    length (todo s) < fuel ->
+    visit_stream E debug fuel s w =
+    bind (inserts E debug (lead (todo s)))
+         (fun _ : unit =>
+            ret (stop (todo s),
+                 {| todo := skipn (S (length (lead (todo s)))) (todo s); finished := true;
+                    polls := polls s + S (length (lead (todo s))); late := late s |})) w.
+Proof. exact (@visit_stream_eq). Qed.
+Print Assumptions C20_visit_stream_eq.
+
+Theorem C20_visit_stream_polls :
+  forall (K V Q T : Type) (E : env K V Q T) (debug : bool) (fuel : nat) (s : @stream K V) (w : world K V T)
+         (r : sres) (s' : @stream K V) (w' : world K V T),
+    finished s = false ->
+    late s = 0 ->
+    length (todo s) < fuel ->
+    visit_stream E debug fuel s w = Ok (r, s') w' ->
+    finished s' = true /\ late s' = 0 /\ polls s' = polls s + S (length (lead (todo s))) /\ r = stop (todo s).
+Proof. exact (@visit_stream_polls). Qed.
+Print Assumptions C20_visit_stream_polls.
+
+Theorem C20_visit_stream_finished :
+  forall (K V Q T : Type) (E : env K V Q T) (debug : bool) (fuel : nat) (s : @stream K V) (w : world K V T),
+    finished s = true ->
+    visit_stream E debug (S fuel) s w =
+    Ok (ROk, {| todo := todo s; finished := true; polls := S (polls s); late := S (late s) |}) w.
+Proof. exact (@visit_stream_finished). Qed.
+Print Assumptions C20_visit_stream_finished.
+
+Theorem C20_keeps_inserts :
+  forall (K V Q T : Type) (E : env K V Q T) (debug : bool) (items : list (K * V)), keeps (inserts E debug items).
+Proof. exact (@keeps_inserts). Qed.
+Print Assumptions C20_keeps_inserts.
+
+Theorem C20_keeps_visit_stream :
+  forall (K V Q T : Type) (E : env K V Q T) (debug : bool) (fuel : nat) (s : @stream K V),
+    keeps (visit_stream E debug fuel s).
+Proof. exact (@keeps_visit_stream). Qed.
+Print Assumptions C20_keeps_visit_stream.
+
+Theorem C20_visit_stream_spec :
+  forall (K V Q T : Type) (E : env K V Q T) (debug : bool) (fuel : nat) (s : @stream K V) (w : world K V T),
+    finished s = false ->
+    length (todo s) < fuel ->
+    WF (self w) ->
+    wp (visit_stream E debug fuel s)
+       (fun (r : sres * @stream K V) (w' : world K V T) =>
+          inv_post w w' /\
+          fst r = stop (todo s) /\
+          finished (snd r) = true /\
+          late (snd r) = late s /\
+          polls (snd r) = polls s + S (length (lead (todo s))) /\
+          todo (snd r) = skipn (S (length (lead (todo s)))) (todo s))
+       (inv_post w) w.
+Proof. exact (@visit_stream_spec). Qed.
+Print Assumptions C20_visit_stream_spec.
+
+(* EVERY environment, every stream: no UB; ROk hands over a well-formed container of the same capacity; after
+   Err (the local container has been dropped) and after a panic (it has been destroyed by the unwinding) the
+   array is still the same array *)
+Theorem C20_decode_safe :
+  forall (K V Q T : Type) (E : env K V Q T) (debug : bool) (s : @stream K V) (w : world K V T),
+    WF (self w) ->
+    wp (Stream.decode E debug s)
+       (fun (r : sres * @stream K V) (w' : world K V T) =>
+          match fst r with
+          | ROk => inv_post w w'
+          | RErr => cap (self w') = cap (self w) /\ length (slots (self w')) = length (slots (self w))
+          end)
+       (fun w' : world K V T =>
+          cap (self w') = cap (self w) /\ length (slots (self w')) = length (slots (self w))) w.
+Proof. exact (@decode_safe). Qed.
+Print Assumptions C20_decode_safe.
+
+Theorem C20_decode_noUB :
+  forall (K V Q T : Type) (E : env K V Q T) (debug : bool) (s : @stream K V) (w : world K V T),
+    WF (self w) -> finished s = false -> Stream.decode E debug s w <> UB.
+Proof. exact (@decode_noUB). Qed.
+Print Assumptions C20_decode_noUB.
+
+(* replaces "keeps_decode" (false: see the counterexamples below) *)
+Theorem C20_keeps_decode_ok :
+  forall (K V Q T : Type) (E : env K V Q T) (debug : bool) (s : @stream K V) (w : world K V T),
+    finished s = true \/ stop (todo s) = ROk ->
+    WF (self w) ->
+    wp (Stream.decode E debug s)
+       (fun (r : sres * @stream K V) (w' : world K V T) => inv_post w w' /\ fst r = ROk /\ finished (snd r) = true)
+       (fun w' : world K V T =>
+          cap (self w') = cap (self w) /\ length (slots (self w')) = length (slots (self w))) w.
+Proof. exact (@keeps_decode_ok). Qed.
+Print Assumptions C20_keeps_decode_ok.
+
+Theorem C20_decode_err_quiet :
+  forall (K V Q T : Type) (E : env K V Q T) (debug : bool) (s : @stream K V) (w : world K V T),
+    drops_quiet E ->
+    WF (self w) ->
+    finished s = false ->
+    stop (todo s) = RErr ->
+    wp (Stream.decode E debug s)
+       (fun (r : sres * @stream K V) (w' : world K V T) =>
+          fst r = RErr /\
+          finished (snd r) = true /\
+          late (snd r) = late s /\
+          polls (snd r) = polls s + S (length (lead (todo s))) /\
+          cap (self w') = cap (self w) /\
+          Spec.elems (self w') = [] /\
+          (forall j : nat, j < len (self w') -> nth_error (slots (self w')) j = Some None))
+       (fun w' : world K V T =>
+          cap (self w') = cap (self w) /\ length (slots (self w')) = length (slots (self w))) w.
+Proof. exact (@decode_err_quiet). Qed.
+Print Assumptions C20_decode_err_quiet.
+
+Theorem C20_inserts_lawful :
+  forall (K V Q T : Type) (E : env K V Q T) (debug : bool) (ck : K -> N) (cq : Q -> N),
+    Lawful E ck cq ->
+    forall (items : list (K * V)) (w : world K V T),
+      WF (self w) ->
+      wp (inserts E debug items)
+         (fun (_ : unit) (w' : world K V T) =>
+            WF (self w') /\
+            cap (self w') = cap (self w) /\
+            Spec.elems (self w') =
+            fold_left (fun (l : list (K * V)) (kv : K * V) => fst (fst (l_insert ck l (fst kv) (snd kv) false)))
+                      items (Spec.elems (self w)))
+         (fun w' : world K V T => WF (self w') /\ cap (self w') = cap (self w)) w.
+Proof. exact (@inserts_lawful). Qed.
+Print Assumptions C20_inserts_lawful.
+
+Theorem C20_inserts_lawful_log :
+  forall (K V Q T : Type) (E : env K V Q T) (debug : bool) (ck : K -> N) (cq : Q -> N),
+    Lawful E ck cq ->
+    forall (items : list (K * V)) (w : world K V T),
+      WF (self w) ->
+      wp (inserts E debug items)
+         (fun (_ : unit) (w' : world K V T) =>
+            WF (self w') /\
+            cap (self w') = cap (self w) /\
+            Spec.elems (self w') =
+            fold_left (fun (l : list (K * V)) (kv : K * V) => fst (fst (l_insert ck l (fst kv) (snd kv) false)))
+                      items (Spec.elems (self w)) /\
+            logged w w' (ins_evs E ck (Spec.elems (self w)) items))
+         (fun w' : world K V T => WF (self w') /\ cap (self w') = cap (self w)) w.
+Proof. exact (@inserts_lawful_log). Qed.
+Print Assumptions C20_inserts_lawful_log.
+
+Theorem C20_decode_ok_lawful :
+  forall (K V Q T : Type) (E : env K V Q T) (debug : bool) (ck : K -> N) (cq : Q -> N),
+    Lawful E ck cq ->
+    forall (s : @stream K V) (w : world K V T),
+      WF (self w) ->
+      finished s = false ->
+      stop (todo s) = ROk ->
+      wp (Stream.decode E debug s)
+         (fun (r : sres * @stream K V) (w' : world K V T) =>
+            fst r = ROk /\
+            finished (snd r) = true /\
+            late (snd r) = late s /\
+            Spec.elems (self w') =
+            fold_left (fun (l : list (K * V)) (kv : K * V) => fst (fst (l_insert ck l (fst kv) (snd kv) false)))
+                      (lead (todo s)) (Spec.elems (self w)) /\
+            polls (snd r) = polls s + S (length (lead (todo s))) /\
+            WF (self w') /\
+            cap (self w') = cap (self w) /\
+            logged w w' (ins_evs E ck (Spec.elems (self w)) (lead (todo s))))
+         (fun _ : world K V T => True) w.
+Proof. exact (@decode_ok_lawful). Qed.
+Print Assumptions C20_decode_ok_lawful.
+
+(* "len (self w') = 0" is false of the model (drop_map keeps the length field); stated instead: the container
+   owns nothing (elems = [], every prefix slot emptied) and the log lists what was destroyed *)
+Theorem C20_decode_err_lawful :
+  forall (K V Q T : Type) (E : env K V Q T) (debug : bool) (ck : K -> N) (cq : Q -> N),
+    Lawful E ck cq ->
+    forall (s : @stream K V) (w : world K V T),
+      WF (self w) ->
+      finished s = false ->
+      stop (todo s) = RErr ->
+      wp (Stream.decode E debug s)
+         (fun (r : sres * @stream K V) (w' : world K V T) =>
+            fst r = RErr /\
+            finished (snd r) = true /\
+            late (snd r) = late s /\
+            Spec.elems (self w') = [] /\
+            (forall j : nat, j < len (self w') -> nth_error (slots (self w')) j = Some None) /\
+            len (self w') =
+            length (fold_left (fun (l : list (K * V)) (kv : K * V) => fst (fst (l_insert ck l (fst kv) (snd kv) false)))
+                              (lead (todo s)) (Spec.elems (self w))) /\
+            cap (self w') = cap (self w) /\
+            polls (snd r) = polls s + S (length (lead (todo s))) /\
+            logged w w'
+              (ins_evs E ck (Spec.elems (self w)) (lead (todo s)) ++
+               flat_map (fun p : K * V => ev_drops (idK E (fst p) ++ idV E (snd p)))
+                 (fold_left (fun (l : list (K * V)) (kv : K * V) => fst (fst (l_insert ck l (fst kv) (snd kv) false)))
+                            (lead (todo s)) (Spec.elems (self w)))))
+         (fun _ : world K V T => True) w.
+Proof. exact (@decode_err_lawful). Qed.
+Print Assumptions C20_decode_err_lawful.
+
+(* -------------------------------------------------------------------------- *)
+(* Non-vacuity on env_map with the honest script (sx_sc0 = C20_sc0) *)
+Example C20_example_stream_sc : sx_sc0 = C20_sc0.
+Proof. reflexivity. Qed.
+
+Example C20_example_stream_hyps :
+  Lawful (env_map C20_sc0) kcls qcls /\
+  WF (self (sx_w 4)) /\ finished sx_st_ok = false /\ stop (todo sx_st_ok) = ROk /\
+  finished sx_st_err = false /\ stop (todo sx_st_err) = RErr /\
+  lead (todo sx_st_ok) = [(k_ 1 5, v_ 2 7); (k_ 3 6, v_ 4 8)].
+Proof. split; [exact example_lawful | exact example_hyps]. Qed.
+
+Example C20_example_decode_ok :
+  Stream.decode (env_map C20_sc0) false
+    {| todo := [SItem (k_ 1 5) (v_ 2 7); SItem (k_ 3 6) (v_ 4 8); SEnd; SItem (k_ 5 9) (v_ 6 1)];
+       finished := false; polls := 0; late := 0 |}
+    {| cb := cs0; log := []; self := new_map 4 |} =
+  Ok (ROk, {| todo := [SItem (k_ 5 9) (v_ 6 1)]; finished := true; polls := 3; late := 0 |})
+     {| cb := {| n_eq := 1; n_clone := 0; n_call := 0; next_id := 100000 |};
+        log := [];
+        self := {| len := 2; slots := [Some (k_ 1 5, v_ 2 7); Some (k_ 3 6, v_ 4 8); None; None] |} |}.
+Proof. exact example_decode_ok. Qed.
+
+Example C20_example_decode_err :
+  Stream.decode (env_map C20_sc0) false
+    {| todo := [SItem (k_ 1 5) (v_ 2 7); SFail; SItem (k_ 3 6) (v_ 4 8)];
+       finished := false; polls := 0; late := 0 |}
+    {| cb := cs0; log := []; self := new_map 4 |} =
+  Ok (RErr, {| todo := [SItem (k_ 3 6) (v_ 4 8)]; finished := true; polls := 2; late := 0 |})
+     {| cb := cs0;
+        log := [EvDrop 1; EvDrop 2];
+        self := {| len := 1; slots := [None; None; None; None] |} |}.
+Proof. exact example_decode_err. Qed.
+
+Example C20_example_decode_err_dup :
+  Stream.decode (env_map C20_sc0) false sx_st_dup (sx_w 4) =
+  Ok (RErr, {| todo := []; finished := true; polls := 3; late := 0 |})
+     {| cb := {| n_eq := 1; n_clone := 0; n_call := 0; next_id := 100000 |};
+        log := [EvDrop 3; EvDrop 2; EvDrop 1; EvDrop 4];
+        self := {| len := 1; slots := [None; None; None; None] |} |}.
+Proof. exact example_decode_err_dup. Qed.
+
+Example C20_example_decode_late :
+  match Stream.decode (env_map C20_sc0) false
+          {| todo := todo sx_st_ok; finished := true; polls := 7; late := 0 |} (sx_w 4) with
+  | Ok (r, s') w' => r = ROk /\ polls s' = 8 /\ late s' = 1 /\ self w' = new_map 4
+  | _ => False
+  end.
+Proof. exact example_decode_late. Qed.
+
+(* Why C20_decode_safe does not claim WF on the Err / panic paths: "keeps (decode E debug s)" is false *)
+Theorem C20_keeps_decode_false_err : ~ keeps (Stream.decode (env_map C20_sc0) false sx_st_err).
+Proof. exact keeps_decode_false_err. Qed.
+Print Assumptions C20_keeps_decode_false_err.
+
+Theorem C20_keeps_decode_false_panic : ~ keeps (Stream.decode (env_map C20_sc0) false sx_st_ok).
+Proof. exact keeps_decode_false_panic. Qed.
+Print Assumptions C20_keeps_decode_false_panic.
+
+(* the destructor of object 1 panics while the local container is dropped on the Err path: panic, no UB *)
+Example C20_example_decode_drop_panic :
+  Stream.decode (env_map (sc_drop 1)) false sx_st_err (sx_w 4) =
+  Panic {| cb := cs0; log := [EvDrop 1; EvDrop 2]; self := {| len := 1; slots := [None; None; None; None] |} |}.
+Proof. exact example_decode_drop_panic. Qed.
+
+(* ... and the entries behind it are leaked, not destroyed (and not destroyed twice) *)
+Example C20_example_decode_drop_panic_leak :
+  match Stream.decode (env_map (sc_drop 1)) false
+          {| todo := [SItem (k_ 1 5) (v_ 2 7); SItem (k_ 3 6) (v_ 4 8); SFail]; finished := false; polls := 0; late := 0 |}
+          (sx_w 4) with
+  | Panic w' => log w' = [EvDrop 1; EvDrop 2] /\
+                slots (self w') = [None; Some (k_ 3 6, v_ 4 8); None; None] /\ len (self w') = 2
+  | _ => False
+  end.
+Proof. exact example_decode_drop_panic_leak. Qed.
